@@ -42,6 +42,8 @@ pub struct ScenarioFile {
     pub noisy: bool,
     pub max_steps: u64,
     pub default_partitions: u64,
+    #[serde(default)]
+    pub stack_mb: Option<usize>,
 }
 
 /// What the failing statement (or the run) was expected to do.
@@ -195,6 +197,7 @@ pub fn scenario_to_file(sc: &Scenario) -> ScenarioFile {
         noisy: sc.sim.noisy,
         max_steps: sc.sim.max_steps,
         default_partitions: sc.sim.default_partitions as u64,
+        stack_mb: if sc.stack_mb == 256 { None } else { Some(sc.stack_mb) },
     }
 }
 
@@ -244,6 +247,7 @@ pub fn scenario_from_file(f: &ScenarioFile) -> Scenario {
             list_chunk: if f.fs.list_chunk >= u32::MAX as u64 { usize::MAX } else { f.fs.list_chunk as usize },
         },
         sim: SimConfig { policy: policy_from_string(&f.policy), noisy: f.noisy, max_steps: f.max_steps, default_partitions: f.default_partitions as usize, keep_events: 200 },
+        stack_mb: f.stack_mb.unwrap_or(256),
     }
 }
 
